@@ -177,6 +177,9 @@ func main() {
 			// a call whose request cannot be written must still return
 			err = c14.BadRawParams(res, *seed)
 		}
+		if err == nil {
+			err = corr.Unencodable(res, *seed)
+		}
 	case "C03":
 		res.Rule = "fault kinds {FIN, RST, blackhole} x positions {before, inside header, mid-payload, before last byte, after} x directions x frame of a workload (calls, a notification, a retry-tagged call) x calls issued right after the strike / in the reconnect window / after recovery (x second fault, thorough); oracle: a call is lost iff it has not returned although a later probe round-tripped or the client was closed; the client endpoint's hook trace is replayed through Jrpc.Corr; distinct = (fault, position, direction, frame, timing)"
 		err = corr.FaultGrid(d, res, *seed, thorough, "C03")
